@@ -316,14 +316,14 @@ const exhFlavours = 2
 const seqWatch = 20 * time.Second
 
 type exhOp struct {
-	kind int // 0 set fresh, 1 set nil, 2 locked read-modify-write
+	kind int // 0 set fresh, 1 set nil, 2 locked read-modify-write, 3 set to the value visible there right now (own or inherited)
 	s    int
 	k    interface{}
 }
 
 func exhOps() []exhOp {
 	var ops []exhOp
-	for kind := 0; kind < 3; kind++ {
+	for kind := 0; kind < 4; kind++ {
 		for s := 0; s < 3; s++ {
 			for _, k := range []interface{}{"a", "b"} {
 				ops = append(ops, exhOp{kind, s, k})
@@ -371,6 +371,14 @@ func runExhHistory(r *sup.CaseResult, idx, n, flavour int) *ovRun {
 			o.set(op.s, op.k, fmt.Sprintf("v%d", fresh))
 		case 1:
 			o.set(op.s, op.k, nil)
+		case 3:
+			// the scope is given, as its own, the value it sees at the moment (e.g. a task scope that
+			// re-binds the manager it inherits): it must keep it when an ancestor changes later
+			if v, _ := o.m.visible(op.s, op.k); v != nil {
+				o.set(op.s, op.k, v)
+			} else {
+				o.set(op.s, op.k, fmt.Sprintf("v%d", fresh))
+			}
 		case 2:
 			o.lock(op.s)
 			o.observe("LockData")
@@ -487,7 +495,11 @@ func runOvl(c *sup.Child, b sup.Batch) {
 						s := rng.Intn(nScopes)
 						switch x := rng.Intn(10); {
 						case x < 6:
-							o.set(s, k, genValue(rng, &fresh))
+							if v, _ := o.m.visible(s, k); v != nil && rng.Intn(6) == 0 {
+								o.set(s, k, v) // its own copy of what it sees right now
+							} else {
+								o.set(s, k, genValue(rng, &fresh))
+							}
 						case x < 9:
 							o.lock(s)
 						default:
